@@ -48,7 +48,8 @@ def gen(rng, tier, index):
     for nid in nodes:
         ops.append(["msg", f"{nid};255;0;0;17;2.1", 0])
         for cid in rng.sample([0, 1, 2, 10, 254], rng.randint(1, 2)):
-            ops.append(["msg", f"{nid};{cid};0;0;{rng.choice([0, 3, 6, 23])};d", rng.choice([0, 0, 1])])
+            ctype = rng.choice([0, 3, 6, 23, 17, 18])  # (a child may be of a node / repeater type too: the payload is then a version)
+            ops.append(["msg", f"{nid};{cid};0;0;{ctype};{'2.0' if ctype in (17, 18) else 'd'}", rng.choice([0, 0, 1])])
     for _ in range(rng.randint(6, 25)):
         roll = rng.random()
         nid = rng.choice(nodes)
@@ -70,8 +71,13 @@ def gen(rng, tier, index):
                                                                         "a text of more than twenty-five characters", "0123456789" * 6,
                                                                         # MQTT payloads are opaque bytes: line boundaries inside them are data
                                                                         "line one\nline two", "a\r\nb", "form\x0cfeed", "nel\x85x", "ls\u2028x"]), rng.choice([0, 1])])
-        elif roll < 0.94:
+        elif roll < 0.92:
             ops.append(["dup", f"{nid};{cid};1;1;24;dup", 1])
+        elif roll < 0.96:
+            # the application writes a command of its own (Gateway.send): any in-range header, any payload - the topic mapping,
+            # not the validation of node traffic, decides what is published
+            ops.append(["send", rng.choice([f"{nid};{cid};1;0;2;on", f"{nid};{cid};1;1;3;half", f"{nid};{cid};2;0;3;now", f"{nid};255;3;0;4;next",
+                                            f"{nid};{cid};1;0;0;21.5", f"{nid};255;3;0;13;"])])
         else:
             ops.append(["probe"])
     if flavour == "amqtt" and rng.random() < 0.35:
@@ -356,6 +362,15 @@ def run(case):
                                                                                       "in_prefix": in_p, "kind": "echo of the last publication"},
                                                            messagelike=in_p in MESSAGELIKE))
                                     break
+                elif kind == "send":
+                    try:
+                        world.call("send", op[1] + "\n")
+                    except Exception as exc:  # pylint: disable=broad-except
+                        violations.append(_vio("send-raised", {"command": op[1], "exc": repr(exc)}, exc=type(exc).__name__))
+                        break
+                    world.settle()
+                    health("send")
+                    probes["application_commands_sent"] = probes.get("application_commands_sent", 0) + 1
                 elif kind == "probe":
                     before = len(broker.published)
                     got = deliver(f"{in_p}/78/255/3/0/6", "0", 0)
